@@ -406,7 +406,8 @@ def zipRemove (a1 a2 : Arr) (it : ArrIter) (m : Mem) :
   else (.errValueNotFound, none, a1, a2, it, m)
 
 /-- `cc_array_zip_iter_add`: room is made in both arrays first; the cursor advances only when the
-call succeeds (A8).  The statuses of the two inner `add_at` calls are ignored, as in the C text. -/
+call succeeds (A8); both insertions or none (A11): the status of each inner `add_at` is returned, and
+when the second fails the first element is taken out again. -/
 def zipAdd (a1 a2 : Arr) (it : ArrIter) (x y : Nat) (m : Mem) : Stat × Arr × Arr × ArrIter × Mem :=
   let index := it.index
   let e1 := if a1.size = a1.capacity then a1.expandCapacity m else (.ok, a1, m)
@@ -414,7 +415,11 @@ def zipAdd (a1 a2 : Arr) (it : ArrIter) (x y : Nat) (m : Mem) : Stat × Arr × A
   let e2 := if a2.size = a2.capacity then a2.expandCapacity e1.2.2 else (.ok, a2, e1.2.2)
   if e2.1 != .ok then (.errAlloc, e1.2.1, e2.2.1, it, e2.2.2) else
   let r1 := e1.2.1.addAt x index e2.2.2
+  if r1.1 != .ok then (r1.1, r1.2.1, e2.2.1, it, r1.2.2) else
   let r2 := e2.2.1.addAt y index r1.2.2
+  if r2.1 != .ok then
+    let u := r1.2.1.removeAt index r2.2.2
+    (r2.1, u.2.2.1, r2.2.1, it, u.2.2.2) else
   (.ok, r1.2.1, r2.2.1, { it with index := it.index + 1 }, r2.2.2)
 
 /-- `cc_array_zip_iter_replace` -/
@@ -432,8 +437,8 @@ on one object, so the model threads ONE array state through the two inner calls,
 text.  (`zip_iter_next` only reads: `zipNext a a`.)  Consequences mirrored here: `zip_iter_remove` removes
 two consecutive elements — or one, when the first removal made the index the end, and then `*out2` is
 left as the caller had it (`untouched`); `zip_iter_add` makes room once, then the second `add_at` grows
-again on its own when the first used the last free slot, its status ignored: a refusal there leaves
-one element inserted and `CC_OK` reported. -/
+again on its own when the first used the last free slot; when that growth step is refused the first
+element is taken out again and the refusal reported (A11). -/
 
 /-- `cc_array_zip_iter_remove`, `ar1 == ar2` -/
 def zipRemove1 (a : Arr) (it : ArrIter) (untouched : Nat) (m : Mem) : Stat × Option (Nat × Nat) × Arr × ArrIter × Mem :=
@@ -453,7 +458,11 @@ def zipAdd1 (a : Arr) (it : ArrIter) (x y : Nat) (m : Mem) : Stat × Arr × ArrI
   let e2 := if e1.2.1.size = e1.2.1.capacity then e1.2.1.expandCapacity e1.2.2 else (.ok, e1.2.1, e1.2.2)
   if e2.1 != .ok then (.errAlloc, e2.2.1, it, e2.2.2) else
   let r1 := e2.2.1.addAt x index e2.2.2
+  if r1.1 != .ok then (r1.1, r1.2.1, it, r1.2.2) else
   let r2 := r1.2.1.addAt y index r1.2.2
+  if r2.1 != .ok then
+    let u := r2.2.1.removeAt index r2.2.2
+    (r2.1, u.2.2.1, it, u.2.2.2) else
   (.ok, r2.2.1, { it with index := it.index + 1 }, r2.2.2)
 
 /-- `cc_array_zip_iter_replace`, `ar1 == ar2`: the second replacement overwrites the first -/
